@@ -162,6 +162,18 @@ func (s *Statement) undoTaskOperationsFrom(from int, task *pod_info.PodInfo) {
 	}
 }
 
+// undoOperationsFrom undoes, newest first, every operation from index `from` on that is still valid.
+func (s *Statement) undoOperationsFrom(from int) {
+	for i := len(s.operations) - 1; i >= from; i-- {
+		if s.operations[i].Name() == undo || !s.operationValid(i) {
+			continue
+		}
+		if err := s.undoOperation(i); err != nil {
+			log.InfraLogger.Errorf("Failed to undo operation %d: %v.", i, err)
+		}
+	}
+}
+
 func (s *Statement) unevict(
 	reclaimee *pod_info.PodInfo, previousStatus pod_status.PodStatus, node *node_info.NodeInfo,
 	previousGpuGroups []string, previousResourceClaimInfo bindrequest_info.ResourceClaimInfo, previousIsVirtualStatus bool) error {
@@ -603,6 +615,9 @@ func (s *Statement) Commit() error {
 			err = s.commitAllocate(taskInfo)
 			if err != nil {
 				log.InfraLogger.Errorf("Failed to allocate task. error: %s", err.Error())
+				// The commit stops here: the operations after this one are never emitted, so
+				// their virtual effect must not stay in the session either.
+				s.undoOperationsFrom(i + 1)
 				s.clearOperations()
 				return err
 			}
